@@ -983,6 +983,18 @@ func (x *Exec) writeScanner(st *State, fr *Frame, inLoop map[*ssa.BasicBlock]boo
 			case *ssa.MakeClosure:
 				callee = cv.Fn.(*ssa.Function)
 			}
+			if callee == nil && !conc && local && !com.IsInvoke() {
+				// a call through a function value inside the loop that is handed the address of a local variable
+				// (the functional-options idiom `opt(&options)`): that variable is unknown after the loop
+				for _, a := range com.Args {
+					if al, ok := a.(*ssa.Alloc); ok {
+						if _, isStruct := al.Type().Underlying().(*types.Pointer).Elem().Underlying().(*types.Struct); isStruct {
+							havocAddr(al, true)
+						}
+					}
+				}
+				return
+			}
 			if callee == nil || (conc && callee.Blocks == nil && intrinsicName(callee) == "") {
 				if conc {
 					// unknown code run by the goroutine: it may write the structs it is handed
